@@ -6,8 +6,15 @@
 (*   Deliver   Attest is about to be called with this duty           -> Deliver                 *)
 (*   Fetch     AttestationData returned data / an error              -> Fetch / FetchErr        *)
 (*   Accounts  ValidatingAccountsForEpochByIndex(req) returned accts -> Accounts / AccountsErr  *)
-(*   Sign      SignBeaconAttestations(req, data) returned (zero) / error  -> Sign               *)
-(*   Submit    SubmitAttestations(atts) returned ok / error          -> Submit                  *)
+(*   Sign      SignBeaconAttestations was called with (req, data)    -> SignCall                *)
+(*   SignRet   ... returned (zero) / an error; req = the request as it reads at that moment     *)
+(*                                                                   -> SignRet                 *)
+(*   Submit    SubmitAttestations was called with atts               -> SubmitCall              *)
+(*   SubmitRet ... returned ok / error; atts = the attestations as they read at that moment     *)
+(*                                                                   -> SubmitRet               *)
+(*   Hung      (watchdog) a run neither reached an interface nor returned: no action            *)
+(* What the service hands to the signer / submitter must stay what it was for the length of the *)
+(* call (the callee reads it whenever it likes): the lines at return repeat the arguments.      *)
 (*   Return    Attest returned                                       -> Housekeep               *)
 (* Steps inside the service are not logged and are silent here: the iterations of the marking   *)
 (* loop (MarkOne: which of two overlapping runs claims a validator is found by TLC and must     *)
@@ -50,7 +57,14 @@ TraceAccounts ==
 TraceSign ==
     /\ IsEvent("Sign")
     /\ Len(Line.req) = Cardinality(Range(Line.req))
-    /\ Sign(Line.run, Range(Line.req), Line.data, Range(Line.zero), ~Line.err)
+    /\ SignCall(Line.run, Range(Line.req), Line.data)
+    /\ StateMatches
+
+TraceSignRet ==
+    /\ IsEvent("SignRet")
+    /\ Strict04 => /\ Range(Line.req) = run[Line.run].req
+                   /\ Line.data = run[Line.run].sd
+    /\ SignRet(Line.run, Range(Line.zero), ~Line.err)
     /\ StateMatches
 
 AttOf(j) == [index |-> j.index, size |-> j.size, bits |-> Range(j.bits), data |-> j.data, sig |-> j.sig]
@@ -60,7 +74,13 @@ TraceSubmit ==
     /\ IsEvent("Submit")
     /\ run[Line.run].atts = AttsOf(Line)
     /\ Len(Line.atts) = Cardinality(AttsOf(Line))
-    /\ Submit(Line.run, ~Line.err)
+    /\ SubmitCall(Line.run)
+    /\ StateMatches
+
+TraceSubmitRet ==
+    /\ IsEvent("SubmitRet")
+    /\ Strict04 => AttsOf(Line) = run[Line.run].atts
+    /\ SubmitRet(Line.run, ~Line.err)
     /\ StateMatches
 
 TraceReturn ==
@@ -80,14 +100,17 @@ Silent ==
     /\ l <= TraceLen
     /\ UNCHANGED l
     /\ \E r \in RunIds :
-        \/ \E claim \in BOOLEAN : MarkOne(r, claim)
-        \/ \E pass \in BOOLEAN : Validate(r, pass)
-        \/ /\ run[r].pc = "build"
-           /\ LET k == NextOf(l, r) IN
-                /\ k > 0
-                /\ Build(r, IF Trace[k].ev = "Submit" THEN AttsOf(Trace[k]) ELSE {})
+        \* without Strict01 nothing reads `attested`, so the unlogged steps of different runs commute: they
+        \* are taken just before the run's own next line (one order instead of all)
+        /\ Strict01 \/ (Trace[l].ev # "Reset" /\ Trace[l].run = r)
+        /\ \/ \E claim \in BOOLEAN : MarkOne(r, claim)
+           \/ \E pass \in BOOLEAN : Validate(r, pass)
+           \/ /\ run[r].pc = "build"
+              /\ LET k == NextOf(l, r) IN
+                   /\ k > 0
+                   /\ Build(r, IF Trace[k].ev = "Submit" THEN AttsOf(Trace[k]) ELSE {})
 
-TraceNext == TraceReset \/ TraceDeliver \/ TraceFetch \/ TraceAccounts \/ TraceSign \/ TraceSubmit \/ TraceReturn \/ Silent
+TraceNext == TraceReset \/ TraceDeliver \/ TraceFetch \/ TraceAccounts \/ TraceSign \/ TraceSignRet \/ TraceSubmit \/ TraceSubmitRet \/ TraceReturn \/ Silent
 
 TraceSpec == TraceInit /\ [][TraceNext]_tvars
 
